@@ -443,6 +443,21 @@ def g_generic(ctx, rng, i):
         _try(QC.intersect, LC[(0,) * len(shape)])
     except Exception:
         pass
+    if dim == 3:
+        # special positions: coordinate axes, axis-parallel lines and lines through the origin in one collection (no common non-zero Pluecker row)
+        o = np.array([0, 0, 0, 1])
+        ex, ey, ez = np.eye(4, dtype=int)[:3]
+        off = np.append(gen.coords(rng, (3,), 3, "int"), 0)
+        starts = np.stack([o, o, o, o + off, o + off, o])
+        ends = np.stack([o + ex, o + ey, o + ez, o + off + ex, o + off + ez, o + np.append(gen.nonzero_vec(rng, 3, 3), 0)])
+        try:
+            SC = g.join(g.PointCollection(starts), g.PointCollection(ends))
+            _try(Q.intersect, SC)
+            _try(g.Sphere(g.Point(1, -1, 2), 3).intersect, SC)
+            for j in range(len(starts)):
+                _try(Q.intersect, g.Line(g.Point(starts[j]), g.Point(ends[j])))
+        except Exception:
+            pass
     hs = np.stack([gen.nonzero_vec(rng, n, 4) for _ in range(k)]).reshape(shape + (n,))
     HC = (g.LineCollection if dim == 2 else g.PlaneCollection)(hs)
     _try(QC.is_tangent, HC)
